@@ -118,7 +118,7 @@ func extractHashedPathParams(pathParams map[string]string,
 	for _, key := range payloadPaths {
 		if key.PayloadType == sharedConfig.PayloadRequestPathParams.String() {
 			if pathParams[key.Path] != "" {
-				pathParamValue := fmt.Sprintf("%s:%s", key.Path, pathParams[key.Path])
+				pathParamValue := fmt.Sprintf("%q:%q", key.Path, pathParams[key.Path])
 				values = append(values, pathParamValue)
 			}
 		}
